@@ -144,7 +144,7 @@ pub fn c09(tier: &str, seed: u64) -> Vec<Case> {
                 for extra in 0..(if thorough { 12 } else { 3 }) {
                     let nopts = r.below(4) as usize;
                     let opt = OPT { udp_packet_size: udp, version: ver,
-                        opt_codes: (0..nopts).map(|_| { let l = *r.pick(&[0usize, 1, 3, 255, 1000]); OPTCode { code: r.next() as u16, data: r.bytes(l).into() } }).collect() };
+                        opt_codes: (0..nopts).map(|_| { let l = *r.pick(&[0usize, 1, 3, 255, 1000]); OPTCode { code: if r.chance(1, 2) { r.below(20) as u16 } else { r.next() as u16 }, data: r.bytes(l).into() } }).collect() };
                     let mut p = Packet::new_reply(r.next() as u16);
                     *p.rcode_mut() = *rc;
                     *p.opt_mut() = Some(opt.clone());
